@@ -1,9 +1,12 @@
 package main
 
 import (
+	"encoding/hex"
 	"encoding/json"
 	"fmt"
 	"os"
+
+	"github.com/kstenerud/go-concise-encoding/configuration"
 )
 
 func replayFile(path string) {
@@ -36,7 +39,73 @@ func replayFile(path string) {
 				break
 			}
 		}
+	case "entry-point":
+		var j entryJob
+		json.Unmarshal(r.Witness["job"], &j)
+		fmt.Printf("  calling %s %s (with %s, class %s) in this process; a fatal error or a hang shows as such\n", j.Op, j.Entry, j.With, j.Class)
+		o, d := c07Call(j)
+		fmt.Printf("  outcome: %s %s\n", o, d)
 	default:
-		fmt.Println("  (no replayer for this kind; the witness file is self-describing)")
+		replayGeneric(r.Witness)
+	}
+}
+
+// replayGeneric re-runs what a witness holds: an event stream is driven through rules into
+// both encoders and decoded again; a document (hex CBE or text CTE) is decoded with rules.
+func replayGeneric(w map[string]json.RawMessage) {
+	cfg := configuration.New()
+	show := func(label string, out cbeOutcome) {
+		fmt.Printf("  %s: err=%v panic=%v hang=%v\n    events: %s\n", label, out.Err, out.Panicked, out.Hung, evsString(out.Evs))
+	}
+	done := false
+	if raw, ok := w["events"]; ok {
+		var evs []AEv
+		if json.Unmarshal(raw, &evs) == nil && len(evs) > 0 {
+			done = true
+			fmt.Printf("  stream: %s\n", evsString(evs))
+			if b, rej, perr := encodeCBE(evs, cfg); rej >= 0 {
+				fmt.Printf("  rules+CBE encoder refuse event %d: %v\n", rej+1, perr)
+			} else {
+				fmt.Printf("  CBE: %x\n", b)
+				show("CBE decoded with rules", decodeCBEWithRules(b, cfg))
+			}
+			if b, rej, perr := encodeCTE(evs, cfg); rej >= 0 {
+				fmt.Printf("  rules+CTE encoder refuse event %d: %v\n", rej+1, perr)
+			} else {
+				fmt.Printf("  CTE: %q\n", b)
+				show("CTE decoded with rules", decodeCTEWithRules(b, cfg))
+			}
+		}
+	}
+	for _, k := range []string{"cbe", "doc", "cbe_back"} {
+		var h string
+		if json.Unmarshal(w[k], &h) != nil || h == "" {
+			continue
+		}
+		if b, err := hex.DecodeString(h); err == nil && len(b) > 0 {
+			done = true
+			fmt.Printf("  %s = %x\n", k, b)
+			show("decoded as CBE with rules", decodeCBEWithRules(b, cfg))
+			if t := convertCBEtoCTE(b, cfg); t.bad() == "" {
+				fmt.Printf("  converted to CTE: %q\n", t.Out)
+			} else {
+				fmt.Printf("  conversion to CTE %s\n", t.bad())
+			}
+		} else if k == "doc" {
+			done = true
+			fmt.Printf("  doc = %q\n", h)
+			show("decoded as CTE with rules", decodeCTEWithRules([]byte(h), cfg))
+		}
+	}
+	for _, k := range []string{"cte", "text"} {
+		var t string
+		if json.Unmarshal(w[k], &t) == nil && t != "" {
+			done = true
+			fmt.Printf("  %s = %q\n", k, t)
+			show("decoded as CTE with rules", decodeCTEWithRules([]byte(t), cfg))
+		}
+	}
+	if !done {
+		fmt.Println("  (nothing to re-run for this kind; the witness file is self-describing)")
 	}
 }
